@@ -49,11 +49,12 @@ Qed.
 
 (* ---- R_repeat_unroll --------------------------------------------------------------------------- *)
 Theorem repeat_unroll_lit enc l1 l2 st u1 u2 nn body :
+  (Z.of_N nn <= 65536) ->
   forallb (plainf (lnames (l1 ++ l2))) body = true ->
   assemble enc (l1 ++ [Repeat (Lit (LNum false st u1 u2 nn)) body] ++ l2) =
   assemble enc (l1 ++ concat (repeat body (N.to_nat nn)) ++ l2).
 Proof.
-  intros Hp. set (names := lnames (l1 ++ l2)) in *. set (n := N.to_nat nn).
+  intros Hcap Hp. set (names := lnames (l1 ++ l2)) in *. set (n := N.to_nat nn).
   assert (Qb : Forall quiet body).
   { apply Forall_forall. intros x Hx. rewrite forallb_forall in Hp. apply (plainf_quiet names). auto. }
   apply (segment_law enc (irel names) names).
@@ -63,7 +64,9 @@ Proof.
   - intros alldefs allkeys exports fuel s0 HK HT.
     cbn [Asm.lay_list]. rewrite lay_stmt_repeat. unfold Asm.lev. rewrite xeval_lit. cbn [lit_value lift xbind].
     replace (Z.of_N nn) with (Z.of_nat n) by (unfold n; apply N_nat_Z).
-    rewrite gai_count. cbn [lift xbind]. rewrite Nat2Z.id.
+    rewrite gai_count. cbn [lift xbind].
+    replace (65536 <? Z.of_nat n) with false by (symmetry; apply Z.ltb_ge; unfold n; rewrite N_nat_Z; exact Hcap).
+    rewrite Nat2Z.id.
     pose proof (iter_unroll enc alldefs allkeys exports fuel names HK body Hp n s0 HT) as RR.
     destruct (iter_x n (Asm.lay_list enc alldefs allkeys exports fuel true body) s0) as [[s1 d1]| | | |],
              (Asm.lay_list enc alldefs allkeys exports fuel false (concat (repeat body n)) s0) as [[s2 d2]| | | |];
@@ -76,9 +79,13 @@ Proof.
 Qed.
 
 Theorem repeat_unroll enc l1 l2 n body :
+  (Z.of_nat n <= 65536) ->
   forallb (plainf (lnames (l1 ++ l2))) body = true ->
   assemble enc (l1 ++ [Repeat (numlit n) body] ++ l2) = assemble enc (l1 ++ concat (repeat body n) ++ l2).
-Proof. intros H. unfold numlit. rewrite (repeat_unroll_lit enc l1 l2 _ _ _ _ body H), Nat2N.id. reflexivity. Qed.
+Proof.
+  intros Hn H. unfold numlit. assert (Hc : Z.of_N (N.of_nat n) <= 65536) by (rewrite nat_N_Z; exact Hn).
+  rewrite (repeat_unroll_lit enc l1 l2 _ _ _ _ body Hc H), Nat2N.id. reflexivity.
+Qed.
 
 (* ---- R_insert_is_bytes ------------------------------------------------------------------------- *)
 Lemma value_bytes_byte b : 0 <= b < 256 -> value_bytes W8 b = [b].
